@@ -1009,6 +1009,14 @@ fn run_case(case: &Value, raw: bool) -> Vec<Value> {
                 }
                 observe(tracer, json!({"op":"collect","id":id,"h":h,"part":p + 1,"nsegs":parts[p].len()}), req, raw, r);
             }
+            "empty" => {
+                // the value that seeds a fold over intermediate results
+                let h = step["h"].as_u64().unwrap_or(0);
+                let x = IntermediateAggregationResults::default();
+                let r = catch_unwind(AssertUnwindSafe(|| final_of(&x, &agg)));
+                observe(tracer, json!({"op":"empty","id":id,"h":h}), req, raw, r);
+                pool.insert(h, x);
+            }
             "merge" => {
                 let a = step["a"].as_u64().unwrap_or(0);
                 let b = step["b"].as_u64().unwrap_or(0);
